@@ -200,7 +200,8 @@ def validateList (thumb : Key → String) (nilErr : Bool) (on : Rule → Bool) (
     | .panic s => .panic s
 
 /-- `NetworkDocumentValidator().Validate(doc)`; `vals` is the regenerated list of composed validators and `nilErr`
-    the regenerated fact "verifyThumbprint tests the JWK for nil" (today it does not: nil-interface panic) -/
+    the regenerated fact "verifyThumbprint tests the JWK for nil" (without the test: nil-interface panic; the
+    theorems hold for either value) -/
 def validate (thumb : Key → String) (nilErr : Bool) (vals : List Validator) (d : NDoc) : Res Unit :=
   validateList thumb nilErr (fun _ => true) d vals
 
